@@ -352,3 +352,84 @@ func init() {
 		},
 	}))
 }
+
+func init() {
+	RegisterProfile(fleetProfile("fleet-quiesce", "C10", FleetRun{
+		Gen: func(t *Tape) FleetCfg {
+			c := swarmBase(t)
+			swarmFaults(t, &c)
+			c.Padding = t.Choose("cfg-padding", 3) == 2
+			c.CrashRate = pick(t, "cfg-crash5", 0, 0, 8)
+			c.Steps = 100 + t.Choose("cfg-steps5", 200)
+			return c
+		},
+		Mons:   func(f *Fleet) []Monitor { return []Monitor{&MonC10{}} },
+		Custom: func(f *Fleet) { RunQuiesce(f, f.Mon[0].(*MonC10)) },
+		Post: func(f *Fleet, r *RunResult) {
+			m := f.Mon[0].(*MonC10)
+			r.Undecided = m.Undecided
+			r.Nontrivial = m.Decided && f.Stats.AppTxns > 0 && f.Stats.Loads > 0
+		},
+	}))
+	RegisterProfile(fleetProfile("fleet-delete", "C04", FleetRun{
+		Gen: func(t *Tape) FleetCfg {
+			c := swarmBase(t)
+			swarmFaults(t, &c)
+			c.Work.DelRate = pick(t, "cfg-del6", 500, 350, 650)
+			c.Work.Keys = c.Work.Keys[:1+t.Choose("cfg-nkeys6", len(c.Work.Keys))]
+			c.CrashRate = pick(t, "cfg-crash6", 0, 8, 20) // restarts re-merge old snapshots
+			if t.Choose("cfg-sweeper", 3) == 2 {
+				sw := &c.Sweeper
+				sw.Enabled = true
+				sw.RetentionDays = pick(t, "cfg-retention", float32(15.0/86400), float32(60.0/86400), 0, 0.5, 370)
+				sw.RetentionLoadCutoffDuration = pick(t, "cfg-loadcutoff", 0, -time.Second, 2*time.Second, 30*time.Second, 1000*time.Hour)
+				sw.FirstInterval = pick(t, "cfg-sw-first", 3*time.Second, 10*time.Second)
+				sw.Interval = pick(t, "cfg-sw-int", 5*time.Second, 20*time.Second)
+				sw.LockDuration = 50 * time.Millisecond
+				sw.ReleaseDuration = pick(t, "cfg-sw-rel", 50*time.Millisecond, time.Second)
+				c.BigDelta = pick(t, "cfg-bigdelta6", 150, 300)
+			}
+			return c
+		},
+		Mons: func(f *Fleet) []Monitor {
+			sw := f.Cfg.Sweeper
+			return []Monitor{
+				&MonC04{SweeperOn: sw.Enabled, Retention: sw.RetentionDuration()},
+				&MonC06{Prop: "C04", Markers: true, SkipRaced: true},
+			}
+		},
+		Post: func(f *Fleet, r *RunResult) {
+			m := f.Mon[0].(*MonC04)
+			r.Counts["ls_txns_checked"] = m.Checked
+			r.Counts["markers_seen"] = m.Markers
+			r.Counts["merges_checked"] = m.Merged
+			r.Nontrivial = m.Markers > 0 && f.Stats.Loads > 0
+		},
+	}))
+	RegisterProfile(fleetProfile("fleet-bucket", "C05", FleetRun{
+		Gen: func(t *Tape) FleetCfg {
+			c := swarmBase(t)
+			c.N = 2 + t.Weighted("cfg-n7", []int{3, 2})
+			swarmFaults(t, &c)
+			if t.Choose("cfg-f-delete", 3) == 2 {
+				c.Faults.DeleteErr = 80
+				c.Faults.DeleteErrAfter = 60
+			}
+			c.CrashRate = pick(t, "cfg-crash7", 10, 0, 25)
+			c.RestartEmpty = pick(t, "cfg-empty7", 300, 0, 700)
+			c.AppWhileDown = false
+			c.Cleanup.Enabled = t.Choose("cfg-cleaner", 4) != 3
+			c.Cleanup.Interval = pick(t, "cfg-cl-int", 2*time.Second, 5*time.Second, 500*time.Millisecond)
+			c.Cleanup.MustKeepInterval = pick(t, "cfg-cl-keep", time.Second, 4*time.Second, 0)
+			c.Cleanup.RemoveOldInstancesInterval = pick(t, "cfg-cl-stale", 10*time.Second, 30*time.Second, 3*time.Second)
+			c.BigDelta = pick(t, "cfg-bigdelta7", 60, 150)
+			return c
+		},
+		Mons: func(f *Fleet) []Monitor { return []Monitor{&MonC05{}} },
+		Post: func(f *Fleet, r *RunResult) {
+			m := f.Mon[0].(*MonC05)
+			r.Counts["bucket_mutations_checked"] = m.Checked
+			r.Nontrivial = m.Checked >= 2 && f.Stats.AppTxns > 0
+		},
+	}))
+}
